@@ -284,6 +284,8 @@ func (s *Server) dispatchLocked(next jmessages, ch sender) func() error {
 func (s *Server) deliver(rsps jmessages, ch sender, elapsed time.Duration) error {
 	if len(rsps) == 0 {
 		return nil
+	} else if ch == nil {
+		return nil // the server stopped before this batch was dispatched
 	}
 	s.log("Completed %d requests [%v elapsed]", len(rsps), elapsed)
 	s.mu.Lock()
